@@ -17,12 +17,25 @@ def mline(op, shape, dims, pos, flat, ext, units, sel, rm, extra=''):
     return '%s %s %s %s %d %s %s %s %s%s' % (op, lst([str(n) for n in shape]), lst([d.tok() for d in dims]), matrix(pos), 1 if flat else 0,
                                               '~' if ext is None else matrix(ext), lst([S(u) for u in units]), sel, rm, extra)
 
-def gen_mtag(rng):
+def rounding_axis(d):
+    """an axis whose end cannot be recomputed from its start: first + (last - first) != last"""
+    if d.kind not in 'SR' or d.n < 2: return False
+    first, last = d.coords[0], d.coords[d.n - 1] if d.kind == 'S' else d.coords[min(d.n, len(d.coords)) - 1]
+    return first + (last - first) != last
+
+def gen_mtag(rng, short=False):
     shape, dims = G.make_array(rng)
+    if short:
+        # positions with fewer columns than the data has dimensions, the unspecified axis being one whose end does not survive
+        # a round trip through (last - first)
+        for _ in range(200):
+            shape, dims = G.make_array(rng, rank=rng.choice([2, 2, 3]))
+            if rounding_axis(dims[-1]): break
     rank = len(shape)
     n = rng.choice([1, 2, 3, 5, 8])
     r = rng.random()
     cols = rank if r < 0.75 else max(1, rank - 1) if r < 0.9 else rank + 1
+    if short: cols = rank - 1
     flat = rank == 1 and cols == 1 and rng.random() < 0.6
     if rank > 1 and rng.random() < 0.05:
         flat, cols = True, 1          # 1-D positions for n-d data: the library rejects this
@@ -64,7 +77,7 @@ def cases(tier, seed, rng):
     n = 700 if tier == 'quick' else 20000
     out, batch = [], []
     for k in range(n):
-        shape, dims, pos, flat, ext, units, npos = gen_mtag(rng)
+        shape, dims, pos, flat, ext, units, npos = gen_mtag(rng, short=(k % 10 == 9))
         rms = ('excl', 'incl') if k % 3 else ('excl',)
         for rm in rms:
             i = rng.randrange(npos)
